@@ -130,6 +130,7 @@ def st_case(draw):
         fields.append(f)
     case = {"gen": gen, "kind": kind, "fields": fields, "cls_name": draw(st.sampled_from(CLASS_NAMES)),
             "omit_default": draw(st.booleans()),
+            "key_cls": draw(st.sampled_from([None, None, None, "str_enum", "evil_repr", "sub_repr"])),
             "debug": draw(st.integers(0, 2)), "style": draw(st.sampled_from([None, None, "CAMEL", "UPPER_KEBAB"]))}
     if gen == "converter":
         # extra destination fields filled by link_function functions with hostile names, and a nested pair of models named
@@ -172,6 +173,34 @@ def valid_field_id(fid, kind):
     if fid.startswith("__") and kind != "typeddict":
         return False  # name mangling inside class bodies: not a "legal field name" for attribute models
     return True
+
+
+class EvilReprStr(str):
+    def __repr__(self):
+        return "__import__('vkit_canary').hit('key repr evaluated')"
+
+
+class PlainSubStr(str):
+    def __repr__(self):
+        return f"PlainSubStr({str.__repr__(self)})"
+
+
+_key_enums: dict = {}
+
+
+def _key_wrapper(how):
+    if how == "evil_repr":
+        return EvilReprStr
+    if how == "sub_repr":
+        return PlainSubStr
+
+    def as_member(k):
+        # one single-member enum per key text (member values are the keys themselves)
+        if k not in _key_enums:
+            import enum  # noqa: PLC0415
+            _key_enums[k] = enum.Enum(f"KeyEnum{len(_key_enums)}", {"MEMBER": k}, type=str)
+        return _key_enums[k].MEMBER
+    return as_member
 
 
 def build_model(case, suffix="", extra=()):
@@ -259,6 +288,11 @@ def check_case(ctx: runner.Ctx, case):  # noqa: C901, PLR0912, PLR0915
         return
     vkit_canary.HITS.clear()
     mapping = {f["id"]: (f["key"] if "key" in f else tuple(f["path"])) for f in fields if "key" in f or "path" in f}
+    if case.get("key_cls"):
+        # the same keys as instances of str subclasses (members of a str-mixin Enum; a subclass whose repr is code): a key is data
+        # whatever its class says about itself, and the expected keys in loaded / dumped data stay the plain strings
+        wrap = _key_wrapper(case["key_cls"])
+        mapping = {fid: (wrap(k) if isinstance(k, str) else tuple(wrap(x) for x in k)) for fid, k in mapping.items()}
     nm_kwargs = {}
     if mapping:
         nm_kwargs["map"] = mapping
